@@ -214,6 +214,15 @@ def st_insert_many_ret(sa, T, p):
     return sa.insert(t).returning(t.c.id, t.c.v, sort_by_parameter_order=True), [{"id": p["newid"] + i, "v": p["val"] + i} for i in range(p["nrows"])], True
 
 
+def st_insert_many_sub(sa, T, p):
+    """executemany + RETURNING whose VALUES contain a scalar subquery on the other table: the
+    insertmanyvalues batches carry schema tokens inside the repeated VALUES group"""
+    t, u = T["t"], T["u"]
+    sub = sa.select(sa.func.max(u.c.w)).scalar_subquery()
+    stmt = sa.insert(t).values(id=sa.bindparam("pid"), v=sa.bindparam("pv", type_=sa.Integer) + sub).returning(t.c.id, t.c.v)
+    return stmt, [{"pid": p["newid"] + i, "pv": p["val"] + i} for i in range(p["nrows"])], True
+
+
 def st_insert_u_many(sa, T, p):
     u = T["u"]
     return sa.insert(u), [{"id": p["newid"] + i, "tid": 1 + i % 5, "w": p["val"] + i} for i in range(p["nrows"])], False
@@ -248,9 +257,9 @@ def st_executemany_update(sa, T, p):
 
 
 SELECTS = [st_select_in, st_join, st_cte, st_exists, st_union, st_subq]
-DML = [st_insert, st_insert_ret, st_insert_many, st_insert_many_ret, st_insert_u_many, st_update, st_update_corr, st_delete, st_insert_from_select,
+DML = [st_insert, st_insert_ret, st_insert_many, st_insert_many_ret, st_insert_many_sub, st_insert_u_many, st_update, st_update_corr, st_delete, st_insert_from_select,
        st_executemany_update]
-IMV = {st_insert_many, st_insert_many_ret, st_insert_u_many}
+IMV = {st_insert_many_ret, st_insert_many_sub}
 
 
 def draw_map(rng, variant, none_mode):
@@ -304,6 +313,9 @@ def run_stmt(rig, eng, spy, build, T, p, m, how, reuse_conn=None):
         if isinstance(ex, sa.exc.StatementError) and not isinstance(ex.orig, sa.exc.InvalidRequestError):
             raise
         err = "InvalidRequestError:" + ("consistent-keys" if "consistent keys" in str(ex) else str(ex)[:60])
+    except (AssertionError, KeyError, AttributeError, TypeError, IndexError) as ex:
+        # compared with the twin's outcome: an internal error only on the translated side is a divergence
+        err = "internal:" + type(ex).__name__
     sql = _stream(spy, mark)
     return err, rows, sql
 
@@ -347,6 +359,9 @@ def run_ddl(rig, eng, spy, T, m, how, op):
         if isinstance(ex, sa.exc.StatementError) and not isinstance(ex.orig, sa.exc.InvalidRequestError):
             raise
         err = "InvalidRequestError:" + ("consistent-keys" if "consistent keys" in str(ex) else str(ex)[:60])
+    except (AssertionError, KeyError, AttributeError, TypeError, IndexError) as ex:
+        # compared with the twin's outcome: an internal error only on the translated side is a divergence
+        err = "internal:" + type(ex).__name__
     sql = _stream(spy, mark)
     return err, None, sql
 
@@ -452,7 +467,7 @@ def sequence(ctx, sa, length):
                 ctx.violation(f"sql-stream-differs:{what}:{skey[0]}", f"map={m!r}: statement {k}: subject {a} != twin {b}", desc)
             if rows_s is not None or rows_t is not None:
                 ctx.count("rows_compared")
-                srt = (lambda r: r) if build not in (st_update_corr,) else sorted
+                srt = (lambda r: r) if build not in (st_update_corr, st_insert_many_sub) else sorted
                 if srt(rows_s or []) != srt(rows_t or []):
                     ctx.violation(f"rows-differ:{skey[0]}", f"map={m!r}: subject rows {rows_s[:3] if rows_s else rows_s} twin rows {rows_t[:3] if rows_t else rows_t}", desc)
                 # absolute payload check for the simple shapes
@@ -460,7 +475,7 @@ def sequence(ctx, sa, length):
                     if build is st_select_in:
                         want = CODE[twin_sch["t"] or "main"]
                         ctx.count("payload_checks")
-                        if any(r[1] // 1000 != want for r in rows_s if r[1] < 10000):
+                        if any(r[1] // 1000 != want for r in rows_s if isinstance(r[1], int) and r[1] < 10000):
                             ctx.violation("payload-from-wrong-schema", f"map={m!r}: rows {rows_s[:3]} should carry schema code {want}", desc)
             a, b = dump_all(rig.subj_paths), dump_all(rig.twin_paths)
             ctx.count("dumps_compared")
